@@ -481,6 +481,27 @@ pub fn generate(rng: &mut Rng, tier: Tier, long_uptime: bool) -> Scenario {
     Scenario { property: PROP.into(), stage: if long_uptime { "long-uptime".into() } else { "seeded".into() }, nodes: vec![spec], ops, workers: 0 }
 }
 
+/// mega stage (fixed corpus): the O(1)-per-call windowed kinds with windows around/beyond 2^16 slots:
+/// a prefix of 2.5n ticks with a spike, cold restart, common suffix of need+60 ticks
+fn mega_scenario(idx: u64, periods: &[usize]) -> Scenario {
+    let kinds = [Kind::Sma, Kind::Wma, Kind::Sd, Kind::Bb, Kind::Roc, Kind::Mfi];
+    let kind = kinds[(idx as usize) % kinds.len()];
+    let p = periods[(idx as usize / kinds.len()) % periods.len()];
+    let mode = if kind.has_scalar() && idx % 2 == 0 { Mode::Scalar } else { Mode::Bar };
+    let spec = NodeSpec { kind, params: Params::new(p, 1, 1, 2.0), mode, dflt: false };
+    let n = p as u64;
+    let g = world::StreamDesc { regime: [world::Regime::Walk, world::Regime::Saw, world::Regime::Alt][(idx % 3) as usize], level: Fx(25.0), saw: 9, seed: idx, neg: false };
+    let mut w = World::from_desc(&g);
+    let spike = world::corrupt_fixed(Fault::Spike1e3, w.clean(), 0);
+    let ops = vec![
+        Op::Gen { n: 0, g, skip: 1, len: 2 * n + n / 2, fault: None, every: 0, reset_every: 0, clone_every: 0 },
+        Op::Feed { n: 0, x: spike, f: Fault::Spike1e3 },
+        Op::Cold { n: 0 },
+        Op::Gen { n: 0, g, skip: 3 * n, len: need(kind, p) + 60, fault: None, every: 0, reset_every: 0, clone_every: 0 },
+    ];
+    Scenario { property: PROP.into(), stage: "mega".into(), nodes: vec![spec], ops, workers: 0 }
+}
+
 pub fn run(tier: Tier) -> i32 {
     let c = report::ctx();
     let start = Instant::now();
@@ -495,12 +516,20 @@ pub fn run(tier: Tier) -> i32 {
     };
     let (short_runs, long_runs) = (crate::gen::scaled(short_runs), crate::gen::scaled(long_runs));
     let seeded = run_stage("seeded", short_runs, wall_cap, &mut total, &|i| generate(&mut Rng::new(run_seed(c.seed, PROP, "seeded", i)), tier, false), &exec_guarded, &[0, 1], 24);
-    let long = if seeded.found.is_none() {
+    let mega_periods: &[usize] = match tier {
+        Tier::Quick => &[65_535, 65_536, 65_537],
+        Tier::Thorough => &crate::gen::MEGA_PERIODS,
+    };
+    let mega = if seeded.found.is_none() && !crate::gen::skip_fixed() { Some(run_stage("mega", 6 * mega_periods.len() as u64, wall_cap, &mut total, &|i| mega_scenario(i, mega_periods), &exec_guarded, &[], 4)) } else { None };
+    let long = if seeded.found.is_none() && mega.as_ref().map_or(true, |m| m.found.is_none()) {
         Some(run_stage("long-uptime", long_runs, wall_cap, &mut total, &|i| generate(&mut Rng::new(run_seed(c.seed, PROP, "long-uptime", i)), tier, true), &exec_guarded, &[0], 24))
     } else {
         None
     };
     let mut stages = vec![&seeded];
+    if let Some(s) = &mega {
+        stages.push(s);
+    }
     if let Some(s) = &long {
         stages.push(s);
     }
@@ -523,7 +552,7 @@ pub fn run(tier: Tier) -> i32 {
             wall_s: wall,
             violations,
             exhaustive: false,
-            extra: json!({"seeded": seeded.json(), "long_uptime": long.as_ref().map(|s| s.json()), "dead_fault_kinds": dead,
+            extra: json!({"seeded": seeded.json(), "mega_windows": {"periods": mega_periods, "stage": mega.as_ref().map(|s| s.json())}, "long_uptime": long.as_ref().map(|s| s.json()), "dead_fault_kinds": dead,
                            "worst_error_over_tolerance": total.maxima}),
         },
     );
